@@ -79,9 +79,32 @@ def run_table(case, ctx):
   txt_x = " ".join(fnum(a) for a in xs)
   txt_y = " ".join(fnum(b) for b in ys)
   head = "[Tabulation]\ntarget : LAMMPS\nnr : 5\ncutoff : 2.0\n\n[Pair]\nA-B : >=%s tbl\n\n[Table-Form:tbl]\n" % fnum(min(xs) - 100.0)
+  # the xy list is a flat sequence of numbers: how it is wrapped over lines must not matter
+  pairs = ["%s %s" % (fnum(a), fnum(b)) for a, b in zip(xs, ys)]
+  per = rng.choice([2, 3, 5])
+  wrapped = "\n    ".join("  ".join(pairs[k:k + per]) for k in range(0, len(pairs), per))
+  ragged = []
+  k = 0
+  toks = " ".join(pairs).split()
+  while k < len(toks):
+    n_ = rng.choice([1, 2, 3, 4, 5])
+    ragged.append(" ".join(toks[k:k + n_]))
+    k += n_
+  layouts = {"one pair per line": txt_xy, "all on one line": " ".join(pairs), "%d pairs per line" % per: wrapped, "ragged lines": "\n    ".join(ragged)}
   try:
     f_api = Cubic_Spline_Table_Form(list(xs), list(ys))
     f_xy = routes.read_config(head + "xy : " + txt_xy + "\n").potentials[0].potentialFunction
+    for lname, ltxt in layouts.items():
+      try:
+        g = routes.read_config(head + "xy : " + ltxt + "\n").potentials[0].potentialFunction
+      except Exception as e:
+        ctx.violation("xy_layout", "xy data wrapped as '%s' is refused: %s %s" % (lname, type(e).__name__, e), what="xy_layout")
+        return
+      ctx.count("xy_layouts")
+      for q in (xs[0], xs[len(xs) // 2], 0.5 * (xs[0] + xs[1]), 0.5 * (xs[-2] + xs[-1]), xs[-1]):
+        if g(q) != f_xy(q):
+          ctx.violation("xy_layout", "xy data wrapped as '%s' gives %r at %r, one pair per line gives %r" % (lname, g(q), q, f_xy(q)), what="xy_layout")
+          return
     f_x_y = routes.read_config(head + "x : " + txt_x + "\ny : " + txt_y + "\n").potentials[0].potentialFunction
   except Exception as e:
     et, fn = exc_sig(e)
